@@ -511,9 +511,6 @@ func c09ErrCheck(c *Ctx, prog *load.Program) {
 	allowed := []site{
 		{models.SececPkg + ".newPrivateKeyFromScalar", models.SececPkg + ".newPublicKeyFromPoint", "the point is s*G with s guarded non-zero, never the identity"},
 		{models.SececPkg + ".verify", "(*" + models.PointType + ").XBytes", "guarded by the identity test just above"},
-		{models.BitcoinPkg + ".NewSchnorrPublicKeyFromPoint", "(*" + models.PointType + ").XBytes", "guarded by the identity test just above"},
-		{models.BitcoinPkg + ".NewSchnorrPublicKeyFromECDSA", models.BitcoinPkg + ".NewSchnorrPublicKeyFromPoint", "a PublicKey never holds the identity (C10)"},
-		{models.BitcoinPkg + ".NewSchnorrPrivateKeyFromECDSA", "(*" + models.PointType + ").XBytes", "the public point of a private key is never the identity (C10)"},
 	}
 	neverFails := func(callee string) bool {
 		return strings.HasSuffix(callee, ".Write") && (strings.Contains(callee, "hash.Hash") || strings.Contains(callee, "tuplehash") || strings.Contains(callee, "io.Writer") || strings.Contains(callee, "crypto/"))
@@ -521,6 +518,19 @@ func c09ErrCheck(c *Ctx, prog *load.Program) {
 	errT := types.Universe.Lookup("error").Type()
 	used := map[string]bool{}
 	total, dropped := 0, 0
+	// scope: a dropped error of a *library* call (a reader, a hash, a parser) is reported wherever it is in the protocol
+	// packages; a dropped error of a *module* function is this property's business where nonces and keys are made - in
+	// the code reachable from the ECDSA signing and key-generation entry points (elsewhere it is decided, with its
+	// consequences, by the accept-set rules of the property that owns the routine)
+	rel := NewRelevance(prog)
+	for _, fn := range ModuleFuncs(prog) {
+		if fn.Pkg != nil && fn.Pkg.Pkg.Path() == models.SececPkg && fn.Parent() == nil {
+			switch fn.Name() {
+			case "Sign", "SignRaw", "sign", "GenerateKey", "NewPrivateKey", "NewPrivateKeyFromScalar", "mitigateDebianAndSony", "sampleRandomScalar":
+				rel.AddRoot(fn)
+			}
+		}
+	}
 	for _, fn := range ModuleFuncs(prog) {
 		if fn.Pkg == nil {
 			continue
@@ -565,6 +575,15 @@ func c09ErrCheck(c *Ctx, prog *load.Program) {
 				}
 				if neverFails(callee) {
 					continue
+				}
+				if sc := call.Common().StaticCallee(); sc != nil && sc.Pkg != nil && load.IsModulePkg(sc.Pkg.Pkg.Path()) {
+					root := fn
+					for root.Parent() != nil {
+						root = root.Parent()
+					}
+					if !rel.reach[root] {
+						continue
+					}
 				}
 				dropped++
 				caller := fn.String()
